@@ -278,22 +278,30 @@ def rule_r3(ctx, rid="C17.R3"):
             if node.kind not in ("stmt", "test") or node.ast is None:
                 continue
             for c in ast.walk(node.ast):
-                if isinstance(c, ast.Call) and isinstance(c.func, ast.Attribute) and isinstance(c.func.value, ast.Name) and c.func.value.id == "buf":
+                if isinstance(c, ast.Call) and isinstance(c.func, ast.Attribute) and isinstance(c.func.value, ast.Call) and dotted(c.func.value.func) == "self._create_buffer":
+                    # a call on the freshly created delegate
+                    n += 1
+                    ctx.r.ok(rid, "%s: %s on the delegate just created" % (name, norm(c)[:40]), f.loc(node.ast))
+                    continue
+                if isinstance(c, ast.Call) and isinstance(c.func, ast.Attribute) and dotted(c.func.value) in ("buf", "self.buf"):
                     n += 1
                     # buf must be known non-None here
                     safe = False
                     for (t, pol, b) in g.guards(node):
-                        if isinstance(t, ast.Compare) and dotted(t.left) == "buf" and isinstance(t.comparators[0], ast.Constant) and t.comparators[0].value is None:
+                        if isinstance(t, ast.Compare) and dotted(t.left) in ("buf", "self.buf") and isinstance(t.comparators[0], ast.Constant) and t.comparators[0].value is None:
                             if (isinstance(t.ops[0], ast.IsNot) and pol) or (isinstance(t.ops[0], ast.Is) and not pol):
                                 safe = True
                     if not safe:
                         # every path from `buf is None`==True to here passes buf = self._create_buffer()
-                        nones = [x for x in g.nodes if x.kind == "branch" and isinstance(x.ast, ast.Compare) and dotted(x.ast.left) == "buf"
+                        nones = [x for x in g.nodes if x.kind == "branch" and isinstance(x.ast, ast.Compare) and dotted(x.ast.left) in ("buf", "self.buf")
                                  and ((isinstance(x.ast.ops[0], ast.Is) and x.polarity) or (isinstance(x.ast.ops[0], ast.IsNot) and not x.polarity))]
                         creates = [x for x in g.nodes if x.kind == "stmt" and isinstance(x.ast, ast.Assign) and dotted(x.ast.targets[0]) == "buf"
                                    and isinstance(x.ast.value, ast.Call) and dotted(x.ast.value.func) == "self._create_buffer"]
                         defs = [x for x in g.nodes if x.kind == "stmt" and isinstance(x.ast, ast.Assign) and dotted(x.ast.targets[0]) == "buf" and dotted(x.ast.value) == "self.buf"]
                         if nones and all(g.path(x, node, avoid=creates, follow_exc=False) is None for x in nones) and defs:
+                            safe = True
+                        elif dotted(c.func.value) == "buf" and not defs and creates and any(g.dominates(cn, node) for cn in creates):
+                            # the local is only ever the freshly created delegate
                             safe = True
                         elif f.name == "_create_buffer":
                             # buf = self.buf after _set_*_buffer()
